@@ -37,14 +37,16 @@ class AxolotlControlLayer(AxolotlBaseLayer):
     def onIdentityChangeEncryptNotification(self, protocoltreenode):
         entity = IdentityChangeEncryptNotification.fromProtocolTreeNode(protocoltreenode)
         ack = OutgoingAckProtocolEntity(
-            protocoltreenode["id"], "notification", protocoltreenode["type"], protocoltreenode["from"]
+            protocoltreenode["id"], "notification", protocoltreenode["type"], protocoltreenode["from"],
+            participant=protocoltreenode["participant"]
         )
         self.toLower(ack.toProtocolTreeNode())
         self.getKeysFor([entity.getFrom(True)], resultClbk=lambda _,__: None, reason="identity")
 
     def onRequestKeysEncryptNotification(self, protocolTreeNode):
         entity = RequestKeysEncryptNotification.fromProtocolTreeNode(protocolTreeNode)
-        ack = OutgoingAckProtocolEntity(protocolTreeNode["id"], "notification", protocolTreeNode["type"], protocolTreeNode["from"])
+        ack = OutgoingAckProtocolEntity(protocolTreeNode["id"], "notification", protocolTreeNode["type"], protocolTreeNode["from"],
+                                        participant=protocolTreeNode["participant"])
         self.toLower(ack.toProtocolTreeNode())
         self.flush_keys(
             self.manager.generate_signed_prekey(),
